@@ -638,7 +638,8 @@ Lemma p5_lstep c s l aux s' :
 Proof.
   intros HB HP Hn. unfold lstep.
   destruct (l_pc (lp s l)) as [| r | r | | |] eqn:Epc.
-  - destruct (cur_op (lp s l)) as [[k | r |]|]; [| | |discriminate].
+  - destruct (cur_op (lp s l)) as [[k | r | |]|]; [| | | |discriminate].
+    4: { intros E; apply some_eq in E; subst s'. eapply p5_sameB; [|exact HP]. sBe. }
     + destruct (is_free (gmutex s)); [|discriminate].
       intros E; apply some_eq in E; subst s'.
       eapply p5_sameB; [apply sameB_advance|]. apply p5_post; assumption.
@@ -647,7 +648,7 @@ Proof.
         intros E; apply some_eq in E; subst s'. eapply p5_sameB; [|exact HP]. sBe.
       * intros E; apply some_eq in E; subst s'. eapply p5_sameB; [|exact HP]. sBe.
     + destruct (l_cb (lp s l)).
-      * destruct (l_active (lp s l) =? 0); [| destruct (l_pending (lp s l))];
+      * destruct ((l_active (lp s l) =? 0) || l_stop (lp s l)); [| destruct (l_pending (lp s l))];
           intros E; apply some_eq in E; subst s'; (eapply p5_sameB; [|exact HP]); sBe.
       * intros E; apply some_eq in E; subst s'. eapply p5_sameB; [|exact HP]. sBe.
   - match goal with |- context [if ?b then _ else _] => destruct b eqn:Ec end;
@@ -705,7 +706,9 @@ Proof.
     { intros K. destruct (Hgm l K) as [_ [r0 K']]. congruence. }
     assert (InvLx c l s) as HX.
     { apply (InvLx_of c l s s HL HA); auto. congruence. }
-    destruct (cur_op (lp s l)) as [[k | r |]|] eqn:Eop; [| | |discriminate].
+    destruct (cur_op (lp s l)) as [[k | r | |]|] eqn:Eop; [| | | |discriminate].
+    4: { intros E; apply some_eq in E; subst s'. apply InvL_advance.
+         apply InvLx_keep; try reflexivity. apply (InvLx_ext c l s); auto. }
     + destruct (gmutex s) eqn:Egm; [discriminate|]. cbn [is_free].
       intros E; apply some_eq in E; subst s'.
       apply InvL_advance.
@@ -729,9 +732,10 @@ Proof.
     + destruct (l_cb (lp s l)) eqn:Ecb.
       * assert (l_in_done (lp s l) = false) as Hd.
         { unfold cur_op in Eop. rewrite Ecb in Eop. destruct (l_in_done (lp s l)); [discriminate | reflexivity]. }
-        destruct (l_active (lp s l) =? 0); [| destruct (l_pending (lp s l))];
+        destruct ((l_active (lp s l) =? 0) || l_stop (lp s l)); [| destruct (l_pending (lp s l))];
           intros E; apply some_eq in E; subst s'.
-        -- apply InvL_advance. apply (InvLx_ext c l s); auto.
+        -- apply InvL_advance. apply InvLx_emit. apply InvLx_keep; try reflexivity.
+           apply (InvLx_ext c l s); auto.
         -- apply InvL_set_loop.
            ++ apply (InvLx_ext c l s); auto.
            ++ unfold loop_ok, cur_op. cbn.
@@ -872,11 +876,13 @@ Lemma lstep_enabled c l s :
 Proof.
   intros Hg H. unfold lstep. rewrite Hg. cbn [is_free].
   destruct H as [[E K] | [[r E] | [[r E] | [E | [E K]]]]]; rewrite E.
-  - destruct (cur_op (lp s l)) as [[k | r |]|]; [| | |contradiction].
+  - destruct (cur_op (lp s l)) as [[k | r | |]|]; [| | | |contradiction].
     + discriminate.
     + destruct (valid_cancel s l r); discriminate.
     + destruct (l_cb (lp s l)); [|discriminate].
-      destruct (l_active (lp s l) =? 0); [discriminate|]. destruct (l_pending (lp s l)); discriminate.
+      destruct ((l_active (lp s l) =? 0) || l_stop (lp s l)); [discriminate|].
+      destruct (l_pending (lp s l)); discriminate.
+    + discriminate.
   - match goal with |- context [if ?b then _ else _] => destruct b end; discriminate.
   - discriminate.
   - discriminate.
